@@ -46,7 +46,11 @@ def gen_bundle(gen, rng, n_refs=None, nrows=None, with_onset=None, valid_cells=T
                       "HED": {k: _entry_items(gen, rng) for k in keys}}
         kinds[c] = "categorical"
     for c in vals:
-        node = rng.choice(gen.values)
+        free = [n for n in gen.values if n.path.casefold() + "/#" not in gen.used]
+        if not free:
+            raise RuntimeError("no fresh value node")
+        node = rng.choice(free)
+        gen.used.add(node.path.casefold() + "/#")
         suffix = "/#"
         items = [annot.tag(node.name, suffix, node.path, "placeholder")]
         if rng.random() < 0.5:
